@@ -104,6 +104,13 @@ def nonFastRef (NF : List String) : FieldDecl → Bool
 def lateLookup (xs : List PyVal) : R (List PyVal) :=
   if xs.isEmpty then .ok [] else .error (.other "AttributeError")
 
+def nonNoneCount (fs : List FieldDecl) : Nat := (fs.filter fun f => !isNoneF f).length
+
+/-- an `AnyOf` with several non-None options: since /repo ab026bd `AnyOf.serialize` hands the value to
+    the first option whose `__set__` takes it (full validation, regex included) — outside this model;
+    `create_serializer` refuses such a field at class level, it only occurs nested -/
+def anyOfMulti (fs : List FieldDecl) : Bool := decide (1 < nonNoneCount fs)
+
 def attrsOf : PyVal → List (String × PyVal)
   | .inst _ attrs => attrs
   | _ => []
@@ -149,7 +156,10 @@ def fser (Mp : MapEnv) (NF JK : List String) : FieldDecl → PyVal → R PyVal
         bindE (fFields Mp NF JK false (Mp c.name) defaults attrs fields) fun r =>
           .ok (.dict (keyDedupe (Mp c.name) r))
       | _ => .error (.other "AttributeError"))
-  | .anyOf fs, v => if v.isNone then .ok .none else fserLast Mp NF JK fs v
+  | .anyOf fs, v =>
+    if v.isNone then .ok .none
+    else if anyOfMulti fs then .error (.other "outside-model:anyof-serialize-by-validation")
+    else fserLast Mp NF JK fs v
   | .allOf fs, v => fserHead Mp NF JK fs v
   | .notF fs, v => fserHead Mp NF JK fs v
   | .oneOf _, _ => .error .typeErr
@@ -208,8 +218,6 @@ termination_by structural fs => fs
 end
 
 /-! ### create_serializer: success or failure -/
-
-def nonNoneCount (fs : List FieldDecl) : Nat := (fs.filter fun f => !isNoneF f).length
 
 mutual
 /-- `_verify_is_fast_serializable(field)` does not raise: every field whose `serialize` the field's
